@@ -108,6 +108,10 @@ namespace Pistache::Http::Mime
 
         static Q fromFloat(double f)
         {
+            // (the comparison is written so that NaN fails it: converting a double outside the
+            // range of Type is undefined)
+            if (!(f >= 0.0 && f <= 1.0))
+                throw std::runtime_error("Invalid quality value, must be in the [0; 1] range");
             return Q(static_cast<Type>(round(f * 100.0)));
         }
 
@@ -217,6 +221,8 @@ namespace Pistache::Http::Mime
      Note: experimental for now as it might not be a good idea
   */
         std::string raw_;
+        // the text a value was parsed from, brought up to date after a setter
+        void refreshRaw();
 
         struct Index
         {
